@@ -292,6 +292,14 @@ func confirmAndValidate(n *Native, res *HarnessResult, tier string, seed int64) 
 		have := strings.Join(trace, "|")
 		if panicked == "" && want == have && len(failed) == 0 {
 			res.TracesValidated++
+		} else if res.Spec.NativeDecides && panicked == "" && want == have && len(failed) > 0 {
+			// (C19) the two natively executed runs of the same history differ although the engine's model of run-to-run
+			// variation did not show it: a real failing execution of the real code on a solver-generated input
+			if !confirmedLabel[failed[0]] {
+				confirmedLabel[failed[0]] = true
+				v := Violation{Label: failed[0], Detail: "found by the native two-run comparison on a solver-generated input (the variation is outside what the engine models symbolically)", Witness: r.pass.Witness}
+				res.Confirmed = append(res.Confirmed, ConfirmedViolation{V: v, Native: "assert-FAILED " + failed[0]})
+			}
 		} else {
 			res.TraceMismatches = append(res.TraceMismatches, fmt.Sprintf("witness=%s\n      symbolic: %s\n      native:   %s %s", witnessString(r.pass.Witness), want, have, panicked))
 		}
